@@ -220,7 +220,13 @@ var errInsufficient = errors.New("insufficient funds")
 // old timestamp in place; the first block after the coefficient is corrected then mints for the whole time in between.)
 func VerifC13_ParamsAdmitMint() {
 	e := c13SetupCoef(true, "-100000000000000000000")
-	zz.Assume(e.params.Validate() == nil)
+	// the two doors parameters come through: genesis (Params.Validate) and the running chain (a parameter-change proposal or
+	// SetParams: x/params runs the validator registered for each key in ParamSetPairs on the new value)
+	if zz.ParamInt("door", 0) == 0 {
+		zz.Assume(e.params.Validate() == nil)
+	} else {
+		zz.Assume(c13AdmittedByPairs(&e.params))
+	}
 	zz.Assume(!e.prev.IsZero() && e.prev.LTE(sdkmath.NewInt(e.nowMs)))
 	zz.Assume(e.bank.supply.LT(e.max)) // away from the cap: that is VerifC13_Mint's subject
 	supply0 := e.bank.supply
@@ -233,4 +239,26 @@ func VerifC13_ParamsAdmitMint() {
 		zz.Reach("recorded")
 	}
 	zz.Reach("end")
+}
+
+
+// c13AdmittedByPairs: what Subspace.SetParamSet / Update check - every registered pair's validator accepts the field's value.
+func c13AdmittedByPairs(p *types.Params) bool {
+	for _, pair := range p.ParamSetPairs() {
+		var v interface{}
+		switch f := pair.Value.(type) {
+		case *string:
+			v = *f
+		case *bool:
+			v = *f
+		case *sdk.Dec:
+			v = *f
+		default:
+			panic("unexpected parameter field type")
+		}
+		if pair.ValidatorFn(v) != nil {
+			return false
+		}
+	}
+	return true
 }
